@@ -2613,6 +2613,27 @@ pub fn gen_cases(topic: &str, seed: u64, n: usize, path: &str) -> Result<(), Str
                        "plan":{"tri":false,"scope":"sw","sws":[[], [true,true,true,true], [false,false,false,true], [true,true,false,false]]}})
             }
             // C08: longer quantified lists with their explicit forms
+            // a quantified sequence of multi-key mappings in which one entry REPEATS another's predicates and adds more
+            // (the wider entry implies the narrower one - both are entries the author wrote and both count), optimised
+            // with and without coalesce / matrix
+            "quant" if mode == 9 && g.r.chance(1, 2) => {
+                let px = |a: &str| json!({"t":"pat","k":"exact","ic":false,"a":cps(a)});
+                let ent = |f: &str, v: J| json!({"m":"none","c":0,"f":cps(f),"v":v});
+                let mut rows = vec![
+                    json!({"t":"map","es":[ent("f", px("x")), ent("g", px("y"))]}),
+                    json!({"t":"map","es":[ent("f", px("x")), ent("g", px("y")), ent("h", px("z"))]}),
+                    json!({"t":"map","es":[ent("f", px("q")), ent("g", px("r"))]}),
+                ];
+                if g.r.chance(1, 2) { rows.swap(0, 1); }
+                if g.r.chance(1, 3) { rows.truncate(2); }
+                let n = 1 + g.r.below(2);
+                let cond = if g.r.chance(1, 3) { json!({"t":"all","n":cps("A")}) } else { json!({"t":"of","n":cps("A"),"c":n}) };
+                let src = json!({"cond":cond,"ids":[[cps("A"),{"t":"seq","ms":rows}]]});
+                let d = |f: &str, gg: &str, h: &str| obj(vec![("f".into(), s_node(f)), ("g".into(), s_node(gg)), ("h".into(), s_node(h))]);
+                let docs = vec![d("x", "y", "z"), d("x", "y", "w"), d("q", "r", "z"), d("x", "r", "z"), d("w", "w", "w")];
+                json!({"topic":"quant","oracle":true,"wt":true,"src":src,"docs":docs,
+                       "plan":{"tri":false,"sws":[[], [false,false,false,true], [false,true,false,true], [true,true,true,true], [true,false,false,true]]}})
+            }
             "quant" => {
                 let class = *g.r.pick(&["str", "str", "str", "num", "bool"]);
                 let kmax = if class == "bool" { 2 } else { 6 };
